@@ -41,8 +41,10 @@ def _setup_types(kind, syms):
         interp.types[syms[0]] = kind
         for s in syms[1:]:
             interp.types[s] = 'str'
-        interp.method_raises['decode'] = ['UnicodeDecodeError']
-        interp.method_raises['encode'] = ['UnicodeEncodeError']
+        interp.method_raises['decode'] = ['UnicodeDecodeError', 'TypeError',
+                                          'LookupError']
+        interp.method_raises['encode'] = ['UnicodeEncodeError', 'TypeError',
+                                          'LookupError']
         if kind == 'other':
             # duck typing: whatever has the method gets it called
             interp.pure_methods.update({'decode', 'encode'})
@@ -113,10 +115,13 @@ def run(ctx):
         'compatibility characters, and the two regular expressions are '
         'checked by character-set algebra.  Codec tables are the stdlib\'s.')
     rep.rule('R16.1', 'type contracts of safe_decode / safe_encode / to_utf8')
+    rep.rule('R16.3', 'safe_decode gives the same answer whatever was decoded '
+             'before (no state is carried between calls)')
     rep.rule('R16.2', 'to_slug output is in [a-z0-9_-] without "--" and '
              'to_slug is idempotent')
     widen(ctx.thorough)
     _decode(ctx)
+    _history(ctx)
     _encode(ctx)
     _to_utf8(ctx)
     _slug(ctx)
@@ -161,6 +166,36 @@ def _decode(ctx):
         grid_compare(rep, 'R16.1', 'safe_decode[%s, default incoming]' % kind,
                      '%s text x stdin encoding x errors' % kind, outcomes,
                      {text: grid, ENV: ENV_GRID, err: ERRORS}, oracle_d)
+
+
+def _history(ctx):
+    """A call's result does not depend on the calls made before it."""
+    from ..core.absint import AbsRaise
+    rep, world = ctx.report, ctx.world
+    f = world.func('encodeutils', 'safe_decode')
+    t1, t2, err = T('sym', 'earlier_text'), T('sym', 'text'), \
+        T('sym', 'errors')
+
+    def thunk(interp):
+        try:
+            interp.call(f, [t1, K(None), err])
+        except AbsRaise:
+            pass
+        return interp.call(f, [t2, K(None), err])
+
+    def setup(interp):
+        _setup_types('bytes', (t1, err))(interp)
+        interp.types[t2] = 'bytes'
+    outcomes, _i = extract(world, thunk, setup=setup, max_paths=20000)
+
+    def oracle(v):
+        return _py_decode(v['text'], v['sys.stdin.encoding'] or 'utf-8',
+                          v['errors'])
+    grid_compare(rep, 'R16.3', 'safe_decode[after an earlier call]',
+                 'earlier bytes x bytes x stdin encoding', outcomes,
+                 {t1: BYTESV[:8], t2: BYTESV[:8],
+                  ENV: ENV_GRID + ('cp1252',), err: ('strict', 'replace')},
+                 oracle)
 
 
 def _encode(ctx):
